@@ -380,6 +380,8 @@ func (p *processor) isMatchOr(conds MatchConditions, event *Event, byPrefix bool
 			if match {
 				return true
 			}
+			// a regexp condition has no values to compare with
+			continue
 		}
 
 		match = cond.valueExists(value, byPrefix)
@@ -405,6 +407,8 @@ func (p *processor) isMatchAnd(conds MatchConditions, event *Event, byPrefix boo
 			if !match {
 				return false
 			}
+			// a regexp condition has no values to compare with
+			continue
 		}
 
 		match = cond.valueExists(value, byPrefix)
